@@ -2,9 +2,9 @@
    Model: Errors/Render.v (how a message is assembled from a GENERATED template, Gen/Templates.v),
    Errors/Parse.v (typedpy/errors.py: the regular expressions as parsers), Errors/Collect.v
    (Structure.__init__ / construct_fields_map: fail-fast vs collect-all).  Proofs: Errors/ErrorsProofs.v. *)
-From Coq Require Import NArith List String Bool. Import ListNotations.
-From TP Require Import Base.PyVal Errors.Template Errors.Render Errors.Parse Errors.TemplateOk Errors.Collect
-  Errors.ErrorsProofs Gen.Templates.
+From Coq Require Import ZArith NArith List String Bool. Import ListNotations.
+From TP Require Import Base.PyVal Base.PyOps Errors.Template Errors.Render Errors.Parse Errors.TemplateOk Errors.Collect
+  Errors.ErrorsProofs Errors.Guard Errors.GuardProofs Errors.GuardSchema Errors.GuardTableProofs Gen.Templates Gen.GuardProgs.
 Local Open Scope list_scope.
 
 (* The generated table, today: every template of a covered (scalar / collection-of-scalar)
@@ -39,7 +39,7 @@ Proof. vm_compute. reflexivity. Qed.
 Theorem C18_prefix_site :
   existsb (fun t => pystr_eqb (t_cls t) (s2p "Structure") && pystr_eqb (t_fn t) (s2p "__init__") &&
                     match t_segs t with
-                    | [Param _; Lit [46%N]; Other] => true
+                    | [Param _; Lit [46%N]; Param _] => true
                     | _ => false
                     end) templates = true.
 Proof. vm_compute. reflexivity. Qed.
@@ -52,6 +52,13 @@ Theorem C18_collect_all :
     construct dumps false cls args = Some x ->
     Forall2 (reports true cls) (errors_of args) (helper false x).
 Proof. exact construct_all_reports. Qed.
+
+(* the collect-all loop with exceptions other than TypeError / ValueError (which it does not catch) is
+   the model the harness compares with the code; it is [construct] whenever every error is caught *)
+Theorem C18_construct_model_agrees :
+  forall dumps ff cls args,
+    all_caught args = true -> construct_u dumps ff cls args = construct dumps ff cls (map forget args).
+Proof. exact construct_u_caught. Qed.
 
 Theorem C18_accepts_iff_no_invalid :
   forall dumps ff cls args, construct dumps ff cls args = None <-> errors_of args = [].
@@ -112,17 +119,102 @@ Proof.
   vm_compute in Hf. inversion Hf; subst p. vm_compute in Hp. discriminate.
 Qed.
 
+(* ------------------------------------------------------------------ who raises: the validation chains
+   Model: Errors/Guard.v (the guard fragment of Python, deep embedding + class analysis), programs
+   regenerated from the source along the real MRO (Gen/GuardProgs.v), schemas and domains
+   (Errors/GuardSchema.v).  Proofs: Errors/GuardProofs.v, Errors/GuardTableProofs.v. *)
+
+(* The analysis is sound for EVERY program of the guard language, every field object and every tuple of
+   values the abstract environment describes: an accepted program never ends in an exception raised by
+   one of its guard expressions. *)
+Theorem C18_guard_analysis_sound :
+  forall re self p env vals,
+    env_ok env self vals = true -> gsafe env p = true -> forall e, run re self vals p <> Bare e.
+Proof. exact gsafe_sound. Qed.
+
+Theorem C18_guard_sites :
+  forall re self p vals tid x, run re self vals p = Named tid x -> In (tid, x) (sites p).
+Proof. exact run_sites. Qed.
+
+(* today's chains pass, each on its stated domain *)
+Theorem C18_kinds_ok : forallb kind_ok kinds = true.
+Proof. exact all_kinds_ok. Qed.
+
+(* A scalar field, or the size / type-and-uniqueness check of a collection, rejects a value only by one
+   of typedpy's own raise statements, and that statement's template is a per-field message of the
+   accepted shape - for ALL field objects fitting the schema and ALL values of the kind's domain, which
+   for the kinds of [kinds_all_values] is every value there is. *)
+Theorem C18_rejection_is_templated :
+  forall k, In k kinds -> forall g, entry_of (k_entry k) = Some g ->
+  forall re self vals, env_ok (init_env k) self vals = true ->
+    match run re self vals (g_prog g) with
+    | Bare _ => False
+    | Named tid _ => exists t, In t templates /\ t_id t = tid /\ tmpl_ok (t_segs t) = true
+    | Pass _ => True
+    end.
+Proof. exact rejection_is_templated. Qed.
+
+(* ... hence its message, with or without the class prefix, is parsed back to a path naming the field *)
+Theorem C18_rejection_names_field :
+  forall k, In k kinds -> forall g, entry_of (k_entry k) = Some g ->
+  forall re self vals tid x, env_ok (init_env k) self vals = true ->
+    run re self vals (g_prog g) = Named tid x ->
+    exists t, In t templates /\ t_id t = tid /\
+      forall cls name sfx a msg,
+        identb cls = true -> identb name = true -> args_nonl a = true ->
+        r_path a = field_path name sfx -> render t a = Some msg ->
+        parsed_ok cls name msg /\ parsed_ok cls name (with_class cls msg).
+Proof. exact rejection_names_field. Qed.
+
+(* The unconditional statement ("every value") is FALSE of a chain that orders, hashes or converts the
+   value before checking its class: the shapes of F22a (sign mix-ins), F22b/c (Boolean, Enum over a
+   class) and F24 (Float), on hand-written programs of the same shape as the generated ones. *)
+Definition sign_first : gprog :=
+  PIf (CCmp OLe (GVar 0) (GConst (PNum (NInt 0%Z)))) (PRaise 0%N ValueError)
+      (PIf (CNot (CIsInst (GVar 0) [K_int; K_float; K_Decimal])) (PRaise 1%N TypeError) (PDone 0)).
+Definition hash_first : gprog :=
+  PIf (CNot (CIn (GVar 0) (KHashed true [PStr (s2p "True"); PStr (s2p "False")]))) (PRaise 0%N TypeError) (PDone 0).
+Definition convert_first : gprog :=
+  PLet (CIsInst (GVar 0) [K_int]) (GToFloat (GVar 0)) (GVar 0)
+       (PIf (CNot (CIsInst (GVar 1) [K_float])) (PRaise 0%N TypeError) (PDone 1)).
+Definition no_attrs (_ : pystr) : pyval := PNone.
+Definition all_values : aenv := {| a_vars := [None]; a_attrs := [] |}.
+
+Theorem C18_unconditional_refuted :
+  (gsafe all_values sign_first = false /\
+   run (fun _ => false) no_attrs [PStr (s2p "7")] sign_first = Bare TypeError) /\
+  (gsafe all_values hash_first = false /\
+   run (fun _ => false) no_attrs [PList [PNum (NInt 1%Z)]] hash_first = Bare TypeError) /\
+  (gsafe all_values convert_first = false /\
+   run (fun _ => false) no_attrs [PNum (NInt (2 ^ 1024)%Z)] convert_first = Bare OverflowError).
+Proof. vm_compute. repeat split. Qed.
+
+(* the same three shapes pass on the restricted domains of Errors/GuardSchema.v *)
+Theorem C18_restricted_domains_suffice :
+  gsafe {| a_vars := [numbers]; a_attrs := [] |} sign_first = true /\
+  gsafe {| a_vars := [hashables]; a_attrs := [] |} hash_first = true /\
+  gsafe {| a_vars := [no_big_int]; a_attrs := [] |} convert_first = true.
+Proof. vm_compute. repeat split. Qed.
+
 Print Assumptions all_templates_ok.
 Print Assumptions f19_wf.
 Print Assumptions C18_template_ok.
 Print Assumptions C18_templates_cover.
 Print Assumptions C18_prefix_site.
 Print Assumptions C18_collect_all.
+Print Assumptions C18_construct_model_agrees.
 Print Assumptions C18_accepts_iff_no_invalid.
 Print Assumptions C18_fail_fast_member.
 Print Assumptions C18_helper_total.
 Print Assumptions C18_deser_collect_all_safe.
 Print Assumptions C18_deser_collect_all_refuted.
+Print Assumptions C18_guard_analysis_sound.
+Print Assumptions C18_guard_sites.
+Print Assumptions C18_kinds_ok.
+Print Assumptions C18_rejection_is_templated.
+Print Assumptions C18_rejection_names_field.
+Print Assumptions C18_unconditional_refuted.
+Print Assumptions C18_restricted_domains_suffice.
 
 (* Non-vacuity: a covered template exists, renders, and the hypotheses are satisfiable;
    collect-all over two invalid and one valid argument reports exactly the two. *)
@@ -151,6 +243,27 @@ Example C18_nonvacuous_collect :
   | Some x => reported_paths (helper false x) = [s2p "Foo.a_1"; s2p "Foo.c"]
   | None => False
   end.
+Proof. vm_compute. reflexivity. Qed.
+
+(* Non-vacuity of the chain theorems: the kind "PositiveInt" exists, its chain is in today's table, a
+   field object with bounds fits its schema, and on three values the chain accepts, rejects at a raise
+   statement, rejects a string at a raise statement (no bare TypeError: the class test comes first). *)
+Example C18_nonvacuous_chain :
+  match kind_by_label (s2p "PositiveInt") with
+  | Some k =>
+      match entry_of (k_entry k) with
+      | Some g =>
+          let self := fun a => if pystr_eqb a (s2p "maximum") then PNum (NInt 10%Z) else PNone in
+          let out v := run (fun _ => false) self [v] (g_prog g) in
+          env_ok (init_env k) self [PStr (s2p "7")] &&
+          match out (PNum (NInt 4%Z)), out (PNum (NInt 50%Z)), out (PStr (s2p "7")), out (PList []) with
+          | Pass _, Named _ ValueError, Named _ TypeError, Named _ TypeError => true
+          | _, _, _, _ => false
+          end
+      | None => false
+      end
+  | None => false
+  end = true.
 Proof. vm_compute. reflexivity. Qed.
 
 (* ---- the tie to the source of the message parsers, re-checked by the kernel on every run ------------
